@@ -44,6 +44,7 @@ func init() {
 		},
 		Quick:    100000,
 		Thorough: 1000000,
+		Require:  []string{"request.afterAdversarialEvent", "discovery.duplicateTokenRefused", "listener.transientAcceptError", "discovery.foreignToken", "server.closesPeer"},
 		Assume: []string{
 			"transcripts are compared on code, token, options and payload, not on message IDs; adversaries never spoof a well-behaved peer's source address; handlers never block",
 			"a well-behaved peer whose own traffic was corrupted by the network is exempt from the isolation comparison",
